@@ -1,9 +1,518 @@
 package main
 
+// Handshake part of Gen/UacpFromGo.v (C06): a small symbolic executor for the straight-line limit plumbing in
+//   (*Conn).Handshake     -- the Hello that is sent, and the `case "ACKF"` clause
+//   (*Conn).srvhandshake  -- the `case "HELF"` clause
+// and the translation of the limit conditions of the secure channel (uasc/secure_channel.go: checkPeerLimits on the
+// send path, the chunk-count / message-size checks in Receive).
+//
+// Values are Gallina expressions over the parameters
+//   l_recv l_send l_maxmsg l_maxchunks        the local configuration (c.ack before the handshake)
+//   r_version r_recv r_send r_maxmsg r_maxchunks   what the peer's HEL / ACK message carries
+// Supported statements: x := new(T) (fields become r_*), x := *y / y = x / y = &x (struct copy), field assignment,
+// `if cond { field assignments }`, `if cond { ...; return err }` (a guard), `if err := c.Send("ACKF", x)` (records what
+// is sent), calls for effect (debug.Printf, c.SendError, ...), return.  Expressions: integer literals, package
+// constants, fields, min/max, comparisons, && || !.  Anything else is an error (the tie is reported broken).
+
 import (
+	"fmt"
 	"go/ast"
+	"go/parser"
 	"go/token"
+	"path/filepath"
+	"sort"
+	"strings"
+
+	"github.com/gopcua/opcua/uacp"
 )
 
-// genHandshake: see below (C06).
-func genHandshake(repo string, fset *token.FileSet, f *ast.File) (string, error) { return "", nil }
+var hsFields = []string{"ReceiveBufSize", "SendBufSize", "MaxMessageSize", "MaxChunkCount"}
+var hsShort = map[string]string{"Version": "version", "ReceiveBufSize": "recv", "SendBufSize": "send", "MaxMessageSize": "maxmsg", "MaxChunkCount": "maxchunks"}
+
+var hsConsts = map[string]string{
+	"DefaultReceiveBufSize": fmt.Sprint(uacp.DefaultReceiveBufSize),
+	"DefaultSendBufSize":    fmt.Sprint(uacp.DefaultSendBufSize),
+	"DefaultMaxChunkCount":  fmt.Sprint(uacp.DefaultMaxChunkCount),
+	"DefaultMaxMessageSize": fmt.Sprint(uacp.DefaultMaxMessageSize),
+	"MinBufSize":            fmt.Sprint(uacp.MinBufSize),
+	"hdrlen":                "8",
+}
+
+type hsState struct {
+	fset    *token.FileSet
+	fn      string
+	structs map[string]map[string]string // variable (or "c.ack") -> field -> expression
+	scalars map[string]string            // c.peerMaxMessageSize, ...
+	guards  []string
+	sent    map[string]string // the Acknowledge handed to c.Send("ACKF", ...)
+	err     error
+}
+
+func (h *hsState) fail(n ast.Node, msg string) {
+	if h.err == nil {
+		h.err = fmt.Errorf("%s: %s: unsupported syntax for handshake translation: %s", h.fn, h.fset.Position(n.Pos()), msg)
+	}
+}
+
+// path renders x, x.y, x.y.z as a dotted path
+func path(e ast.Expr) string {
+	switch x := e.(type) {
+	case *ast.Ident:
+		return x.Name
+	case *ast.SelectorExpr:
+		p := path(x.X)
+		if p == "" {
+			return ""
+		}
+		return p + "." + x.Sel.Name
+	case *ast.ParenExpr:
+		return path(x.X)
+	case *ast.StarExpr:
+		return path(x.X)
+	case *ast.UnaryExpr:
+		if x.Op == token.AND {
+			return path(x.X)
+		}
+	}
+	return ""
+}
+
+func copyStruct(m map[string]string) map[string]string {
+	c := map[string]string{}
+	for k, v := range m {
+		c[k] = v
+	}
+	return c
+}
+
+func (h *hsState) expr(e ast.Expr) string {
+	switch x := e.(type) {
+	case *ast.BasicLit:
+		if x.Kind == token.INT {
+			return strings.ReplaceAll(x.Value, "_", "")
+		}
+	case *ast.ParenExpr:
+		return "(" + h.expr(x.X) + ")"
+	case *ast.Ident:
+		if v, ok := hsConsts[x.Name]; ok {
+			return v
+		}
+		if v, ok := h.scalars[x.Name]; ok {
+			return v
+		}
+	case *ast.SelectorExpr:
+		p := path(x)
+		if i := strings.LastIndex(p, "."); i > 0 {
+			if st, ok := h.structs[p[:i]]; ok {
+				if v, ok := st[p[i+1:]]; ok {
+					return v
+				}
+			}
+		}
+		if v, ok := h.scalars[p]; ok {
+			return v
+		}
+	case *ast.CallExpr:
+		if id, ok := x.Fun.(*ast.Ident); ok {
+			switch {
+			case (id.Name == "min" || id.Name == "max") && len(x.Args) == 2:
+				return "(Z." + id.Name + " " + h.expr(x.Args[0]) + " " + h.expr(x.Args[1]) + ")"
+			case (id.Name == "uint32" || id.Name == "uint64" || id.Name == "int") && len(x.Args) == 1:
+				return h.expr(x.Args[0]) // all values handled here are below 2^32 (uint32 fields, lengths)
+			case id.Name == "len" && len(x.Args) == 1:
+				n := path(x.Args[0])
+				if ix, ok := x.Args[0].(*ast.IndexExpr); ok {
+					n = path(ix.X)
+				}
+				if i := strings.LastIndex(n, "."); i >= 0 {
+					n = n[i+1:]
+				}
+				if n != "" {
+					if v, ok := h.scalars["len_"+n]; ok {
+						return v
+					}
+				}
+			}
+		}
+		if sel, ok := x.Fun.(*ast.SelectorExpr); ok && len(x.Args) == 0 { // niladic accessor: s.c.MaxChunkCount()
+			if v, ok := h.scalars[sel.Sel.Name+"()"]; ok {
+				return v
+			}
+		}
+	case *ast.UnaryExpr:
+		if x.Op == token.NOT {
+			return "(negb " + h.expr(x.X) + ")"
+		}
+	case *ast.BinaryExpr:
+		a, b := h.expr(x.X), h.expr(x.Y)
+		switch x.Op {
+		case token.LSS:
+			return "(" + a + " <? " + b + ")"
+		case token.LEQ:
+			return "(" + a + " <=? " + b + ")"
+		case token.GTR:
+			return "(" + a + " >? " + b + ")"
+		case token.GEQ:
+			return "(" + a + " >=? " + b + ")"
+		case token.EQL:
+			return "(" + a + " =? " + b + ")"
+		case token.NEQ:
+			return "(negb (" + a + " =? " + b + "))"
+		case token.LAND:
+			return "(" + a + " && " + b + ")"
+		case token.LOR:
+			return "(" + a + " || " + b + ")"
+		case token.ADD:
+			return "(" + a + " + " + b + ")"
+		case token.SUB:
+			return "(" + a + " - " + b + ")"
+		}
+	}
+	h.fail(e, fmt.Sprintf("expression %T", e))
+	return "0"
+}
+
+func isErrReturn(stmts []ast.Stmt) bool {
+	if len(stmts) == 0 {
+		return false
+	}
+	r, ok := stmts[len(stmts)-1].(*ast.ReturnStmt)
+	if !ok || len(r.Results) != 1 {
+		return false
+	}
+	id, isIdent := r.Results[0].(*ast.Ident)
+	return !(isIdent && id.Name == "nil")
+}
+
+// assign handles one assignment; cond != "" makes it conditional
+func (h *hsState) assign(x *ast.AssignStmt, cond string) {
+	if len(x.Lhs) != 1 || len(x.Rhs) != 1 {
+		h.fail(x, "multi-assignment")
+		return
+	}
+	lhs, rhs := x.Lhs[0], x.Rhs[0]
+	lp := path(lhs)
+	// x := new(T)
+	if c, ok := rhs.(*ast.CallExpr); ok {
+		if id, ok := c.Fun.(*ast.Ident); ok && id.Name == "new" && len(c.Args) == 1 {
+			st := map[string]string{"Version": "r_version"}
+			for _, f := range hsFields {
+				st[f] = "r_" + hsShort[f]
+			}
+			h.structs[lp] = st
+			return
+		}
+	}
+	// struct copies: x := *y, y = x, y = &x
+	if rp := path(rhs); rp != "" {
+		if st, ok := h.structs[rp]; ok {
+			if cond != "" {
+				h.fail(x, "conditional struct copy")
+			}
+			h.structs[lp] = copyStruct(st)
+			return
+		}
+	}
+	// composite literal &T{F: e, ...}
+	var cl *ast.CompositeLit
+	if u, ok := rhs.(*ast.UnaryExpr); ok && u.Op == token.AND {
+		cl, _ = u.X.(*ast.CompositeLit)
+	} else {
+		cl, _ = rhs.(*ast.CompositeLit)
+	}
+	if cl != nil {
+		if cond != "" {
+			h.fail(x, "conditional composite literal")
+		}
+		st := map[string]string{"Version": "0"}
+		for _, f := range hsFields {
+			st[f] = "0"
+		}
+		for _, el := range cl.Elts {
+			kv, ok := el.(*ast.KeyValueExpr)
+			if !ok {
+				h.fail(el, "positional composite literal")
+				continue
+			}
+			k := path(kv.Key)
+			if _, known := hsShort[k]; known {
+				st[k] = h.expr(kv.Value)
+			}
+		}
+		h.structs[lp] = st
+		return
+	}
+	// field or scalar assignment
+	v := h.expr(rhs)
+	if i := strings.LastIndex(lp, "."); i > 0 {
+		if st, ok := h.structs[lp[:i]]; ok {
+			f := lp[i+1:]
+			if cond != "" {
+				v = "(if " + cond + " then " + v + " else " + st[f] + ")"
+			}
+			st[f] = v
+			return
+		}
+	}
+	if lp == "" {
+		h.fail(x, "assignment target")
+		return
+	}
+	if cond != "" {
+		old, ok := h.scalars[lp]
+		if !ok {
+			old = "0"
+		}
+		v = "(if " + cond + " then " + v + " else " + old + ")"
+	}
+	h.scalars[lp] = v
+}
+
+func (h *hsState) run(stmts []ast.Stmt) {
+	for _, s := range stmts {
+		if h.err != nil {
+			return
+		}
+		switch x := s.(type) {
+		case *ast.ExprStmt: // calls for effect
+			if _, ok := x.X.(*ast.CallExpr); !ok {
+				h.fail(s, "expression statement")
+			}
+		case *ast.ReturnStmt:
+			return
+		case *ast.AssignStmt:
+			h.assign(x, "")
+		case *ast.DeclStmt, *ast.EmptyStmt:
+		case *ast.IfStmt:
+			if x.Init != nil {
+				// if _, err := X.Decode(..); err != nil {..}   /   if err := c.Send("ACKF", v); err != nil {..}
+				as, ok := x.Init.(*ast.AssignStmt)
+				if !ok || len(as.Rhs) != 1 {
+					h.fail(s, "if with init")
+					continue
+				}
+				call, ok := as.Rhs[0].(*ast.CallExpr)
+				if !ok {
+					h.fail(s, "if with non-call init")
+					continue
+				}
+				if sel, ok := call.Fun.(*ast.SelectorExpr); ok && sel.Sel.Name == "Send" && len(call.Args) == 2 {
+					if lit, ok := call.Args[0].(*ast.BasicLit); ok && lit.Value == "\"ACKF\"" {
+						if st, ok := h.structs[path(call.Args[1])]; ok {
+							h.sent = copyStruct(st)
+						} else {
+							h.fail(s, "Send of an unknown value")
+						}
+					}
+				}
+				continue
+			}
+			if x.Else != nil {
+				h.fail(s, "if/else")
+				continue
+			}
+			cond := h.expr(x.Cond)
+			if isErrReturn(x.Body.List) {
+				h.guards = append(h.guards, cond)
+				continue
+			}
+			for _, b := range x.Body.List {
+				switch y := b.(type) {
+				case *ast.AssignStmt:
+					h.assign(y, cond)
+				case *ast.ExprStmt:
+				default:
+					h.fail(b, fmt.Sprintf("statement %T in a conditional", b))
+				}
+			}
+		default:
+			h.fail(s, fmt.Sprintf("statement %T", s))
+		}
+	}
+}
+
+func caseClause(fd *ast.FuncDecl, label string) []ast.Stmt {
+	var out []ast.Stmt
+	ast.Inspect(fd.Body, func(n ast.Node) bool {
+		if cc, ok := n.(*ast.CaseClause); ok {
+			for _, e := range cc.List {
+				if lit, ok := e.(*ast.BasicLit); ok && lit.Value == "\""+label+"\"" {
+					out = cc.Body
+				}
+			}
+		}
+		return out == nil
+	})
+	return out
+}
+
+func tuple4(st map[string]string) string {
+	var vs []string
+	for _, f := range hsFields {
+		vs = append(vs, st[f])
+	}
+	return "(" + strings.Join(vs, ",\n   ") + ")"
+}
+
+const hsParams = "(l_recv l_send l_maxmsg l_maxchunks r_version r_recv r_send r_maxmsg r_maxchunks : Z)"
+
+func newHS(fset *token.FileSet, fn string) *hsState {
+	h := &hsState{fset: fset, fn: fn, structs: map[string]map[string]string{}, scalars: map[string]string{}}
+	st := map[string]string{"Version": "0"}
+	for _, f := range hsFields {
+		st[f] = "l_" + hsShort[f]
+	}
+	h.structs["c.ack"] = st
+	h.scalars["c.peerMaxMessageSize"] = "0"
+	h.scalars["c.peerMaxChunkCount"] = "0"
+	return h
+}
+
+func genHandshake(repo string, fset *token.FileSet, f *ast.File) (string, error) {
+	var b strings.Builder
+	fmt.Fprintf(&b, "Definition go_MinBufSize : Z := %d.\n\n", uacp.MinBufSize)
+
+	// ---- client ----------------------------------------------------------------------------------------
+	fd := findMethod(f, "Conn", "Handshake")
+	if fd == nil {
+		return "", fmt.Errorf("uacp: method (*Conn).Handshake not found")
+	}
+	h := newHS(fset, "Handshake")
+	// the Hello: first composite literal of type Hello
+	var hello map[string]string
+	ast.Inspect(fd.Body, func(n ast.Node) bool {
+		if cl, ok := n.(*ast.CompositeLit); ok && hello == nil {
+			if id, ok := cl.Type.(*ast.Ident); ok && id.Name == "Hello" {
+				hello = map[string]string{}
+				for _, el := range cl.Elts {
+					if kv, ok := el.(*ast.KeyValueExpr); ok {
+						if k := path(kv.Key); hsShort[k] != "" && k != "Version" {
+							hello[k] = h.expr(kv.Value)
+						}
+					}
+				}
+			}
+		}
+		return true
+	})
+	if hello == nil || len(hello) != 4 {
+		return "", fmt.Errorf("uacp: Handshake: &Hello{...} with the four limit fields not found (source changed shape)")
+	}
+	body := caseClause(fd, "ACKF")
+	if body == nil {
+		return "", fmt.Errorf("uacp: Handshake: case \"ACKF\" not found (source changed shape)")
+	}
+	h.run(body)
+	if h.err != nil {
+		return "", h.err
+	}
+	fmt.Fprintf(&b, "(* uacp/conn.go, Conn.Handshake: (ReceiveBufSize, SendBufSize, MaxMessageSize, MaxChunkCount) of the Hello *)\nDefinition go_Handshake_hello (l_recv l_send l_maxmsg l_maxchunks : Z) : Z * Z * Z * Z :=\n  %s.\n\n", tuple4(hello))
+	fmt.Fprintf(&b, "(* ... case \"ACKF\": conditions under which the Acknowledge is refused, in source order *)\nDefinition go_Handshake_reject %s : list bool :=\n  [%s].\n\n", hsParams, strings.Join(h.guards, ";\n   "))
+	fmt.Fprintf(&b, "(* ... c.ack afterwards: the limits this client works with *)\nDefinition go_Handshake_ack %s : Z * Z * Z * Z :=\n  %s.\n\n", hsParams, tuple4(h.structs["c.ack"]))
+	fmt.Fprintf(&b, "(* ... (peerMaxMessageSize, peerMaxChunkCount) afterwards: what the server accepts *)\nDefinition go_Handshake_peer %s : Z * Z :=\n  (%s,\n   %s).\n\n", hsParams, h.scalars["c.peerMaxMessageSize"], h.scalars["c.peerMaxChunkCount"])
+
+	// ---- server ----------------------------------------------------------------------------------------
+	fd = findMethod(f, "Conn", "srvhandshake")
+	if fd == nil {
+		return "", fmt.Errorf("uacp: method (*Conn).srvhandshake not found")
+	}
+	h = newHS(fset, "srvhandshake")
+	body = caseClause(fd, "HELF")
+	if body == nil {
+		return "", fmt.Errorf("uacp: srvhandshake: case \"HELF\" not found (source changed shape)")
+	}
+	h.run(body)
+	if h.err != nil {
+		return "", h.err
+	}
+	if h.sent == nil {
+		return "", fmt.Errorf("uacp: srvhandshake: c.Send(\"ACKF\", ...) not found (source changed shape)")
+	}
+	fmt.Fprintf(&b, "(* uacp/conn.go, Conn.srvhandshake, case \"HELF\": conditions under which the Hello is refused *)\nDefinition go_srvhandshake_reject %s : list bool :=\n  [%s].\n\n", hsParams, strings.Join(h.guards, ";\n   "))
+	fmt.Fprintf(&b, "(* ... the Acknowledge that is sent *)\nDefinition go_srvhandshake_sent %s : Z * Z * Z * Z :=\n  %s.\n\n", hsParams, tuple4(h.sent))
+	fmt.Fprintf(&b, "(* ... c.ack afterwards: the limits this server connection works with *)\nDefinition go_srvhandshake_ack %s : Z * Z * Z * Z :=\n  %s.\n\n", hsParams, tuple4(h.structs["c.ack"]))
+	fmt.Fprintf(&b, "(* ... (peerMaxMessageSize, peerMaxChunkCount) afterwards: what the client accepts *)\nDefinition go_srvhandshake_peer %s : Z * Z :=\n  (%s,\n   %s).\n\n", hsParams, h.scalars["c.peerMaxMessageSize"], h.scalars["c.peerMaxChunkCount"])
+
+	// ---- secure channel: send-side and receive-side message limits -------------------------------------
+	scFile := "uasc/secure_channel.go"
+	sf, err := parser.ParseFile(fset, filepath.Join(repo, scFile), nil, 0)
+	if err != nil {
+		return "", err
+	}
+	limitConds := func(fn string, accessors map[string]string, scalars map[string]string) ([]string, error) {
+		fd := findMethod(sf, "SecureChannel", fn)
+		if fd == nil {
+			return nil, fmt.Errorf("uasc: method (*SecureChannel).%s not found", fn)
+		}
+		var conds []string
+		var ferr error
+		ast.Inspect(fd.Body, func(n ast.Node) bool {
+			x, ok := n.(*ast.IfStmt)
+			if !ok || x.Init == nil || ferr != nil {
+				return true
+			}
+			as, ok := x.Init.(*ast.AssignStmt)
+			if !ok || as.Tok != token.DEFINE || len(as.Lhs) != len(as.Rhs) {
+				return true
+			}
+			// only the ifs whose init reads one of the limit accessors
+			uses := false
+			for _, r := range as.Rhs {
+				if c, ok := r.(*ast.CallExpr); ok {
+					if sel, ok := c.Fun.(*ast.SelectorExpr); ok {
+						if _, ok := accessors[sel.Sel.Name]; ok {
+							uses = true
+						}
+					}
+				}
+			}
+			if !uses {
+				return true
+			}
+			h := &hsState{fset: fset, fn: fn, structs: map[string]map[string]string{}, scalars: map[string]string{}}
+			for k, v := range accessors {
+				h.scalars[k+"()"] = v
+			}
+			for k, v := range scalars {
+				h.scalars[k] = v
+			}
+			for i := range as.Lhs {
+				h.scalars[path(as.Lhs[i])] = h.expr(as.Rhs[i])
+			}
+			cond := h.expr(x.Cond)
+			// a nested condition on the computed size (checkPeerLimits: if max > 0 { ...; if size > max {..} })
+			if !isErrReturn(x.Body.List) {
+				inner := ""
+				for _, s := range x.Body.List {
+					if y, ok := s.(*ast.IfStmt); ok && y.Init == nil && isErrReturn(y.Body.List) {
+						inner = h.expr(y.Cond)
+					}
+				}
+				if inner == "" {
+					h.fail(x, "limit check that neither returns an error nor contains a check that does")
+				}
+				cond = "(" + cond + " && " + inner + ")"
+			}
+			if h.err != nil {
+				ferr = h.err
+			}
+			conds = append(conds, cond)
+			return true
+		})
+		return conds, ferr
+	}
+	send, err := limitConds("checkPeerLimits", map[string]string{"PeerMaxChunkCount": "peer_maxchunks", "PeerMaxMessageSize": "peer_maxmsg"},
+		map[string]string{"len_chunks": "nchunks", "size": "size"})
+	if err != nil {
+		return "", err
+	}
+	recv, err := limitConds("Receive", map[string]string{"MaxChunkCount": "maxchunks", "MaxMessageSize": "maxmsg"},
+		map[string]string{"len_chunks": "nintermediate", "len_b": "size"})
+	if err != nil {
+		return "", err
+	}
+	sort.Strings(nil)
+	fmt.Fprintf(&b, "(* %s, SecureChannel.checkPeerLimits: conditions under which the sender refuses a message of `nchunks` chunks\n   and `size` body bytes, given what the peer announced (0 = no limit) *)\nDefinition go_send_refused (nchunks size peer_maxchunks peer_maxmsg : Z) : list bool :=\n  [%s].\n\n", scFile, strings.Join(send, ";\n   "))
+	fmt.Fprintf(&b, "(* %s, SecureChannel.Receive: conditions under which the receiver rejects a message after `nintermediate`\n   intermediate chunks / with `size` body bytes, given its own limits (0 = no limit) *)\nDefinition go_recv_rejected (nintermediate size maxchunks maxmsg : Z) : list bool :=\n  [%s].\n\n", scFile, strings.Join(recv, ";\n   "))
+	return b.String(), nil
+}
